@@ -31,7 +31,8 @@ MANIFEST = {
             'progress is required within K=4 loop iterations after the last '
             'injected event (logical steps, no wall clock).  Raptor-bound '
             'tasks and named-environment tasks are part of the streams; '
-            'priority is decided on scripted two-task scenarios.',
+            'priority is decided on scripted two-task scenarios.'
+            "  Second session: a quarter of the histories carry raptor tasks (named master, any master '*', tasks returning with raptor_seen) with the master's queue registering/unregistering at seeded points: partition rule incl. backlog/queue, no local placement of a raptor task, backlog flushed once the queue is registered.",
     'note': 'unbounded "eventually" restated as K=4 iterations; fit oracle '
             'only for tag-free, whole-GPU requests in scattered mode (other '
             'requests take part in the partition and at-most-once oracles '
